@@ -64,6 +64,19 @@ PROPS["C11"] = {
     "release_too": False,
 }
 
+PROPS["C14"] = {
+    "level": "proof",
+    "technique": "Lean 4 theorems about the rejection loop for an arbitrary chunk stream (= filter < 5q, mod q, take n; canonical; 512-prefix of 1024) + executable SHAKE-256 transcription validated against the sha3 crate and the real hash_to_point on every run, incl. searched threshold-hitting strings",
+    "rule": "ops = hash_to_point for n = 512 and 1024 on strings of lengths 0..300 and around multiples of the SHAKE rate 136, strings searched (with the harness's reference) so that the stream contains a chunk equal to 61444 / 61445 / 61446 / 65535 before n coefficients are collected, strings with unusually many early rejections; distinct by op line; every op is judged against Algorithm 3 written directly on the XOF, range and prefix relation",
+    "exhaustive": {"quick": (False, ""), "thorough": (False, "")},
+    "level_text": "Machine-checked for every chunk stream: the loop returns exactly the accepted chunks (< 61445 = 5q, constants re-extracted from polynomial.rs) reduced mod q, in order, n of them; all coefficients canonical; the 512 point is the first half of the 1024 point. SHAKE-256 itself is an executable Lean transcription (FIPS 202) compared with the sha3 crate through the real hash_to_point on every run.",
+    "level_note": "Trusted: Lean kernel; the Lean SHAKE-256 transcription and the sha3 crate (agreement checked per run, neither verified); translator (K, threshold operator, endianness indices).",
+    "trusted_base": TB_COMMON + ["sha3 crate (SHAKE-256) modelled by an executable Lean transcription of FIPS 202, validated against the crate and the standard empty-string vector"],
+    "assumptions": ["the SHAKE-256 stream contains n accepted chunks (true with probability 1; the loop does not terminate otherwise, in the specification as well)"],
+    "not_proved": ["equality of the Lean SHAKE-256 transcription with the sha3 crate for all inputs (compared on every run)"],
+    "release_too": False,
+}
+
 # properties not (yet) claimed, with the reason shown in MANIFEST.not_applicable
 NOT_YET = {k: "check not built yet in this session (planned in DESIGN.md §7/§8); not claimed until its check passes" for k in
-           ["C01", "C02", "C03", "C04", "C05", "C08", "C09", "C10", "C13", "C14", "C15", "C16", "C17"]}
+           ["C01", "C02", "C03", "C04", "C05", "C08", "C09", "C10", "C13", "C15", "C16", "C17"]}
